@@ -7,12 +7,15 @@ import (
 	"encoding/json"
 	"fmt"
 	"io"
+	"net/http"
+	"net/http/httptest"
 	"os"
 	"strings"
 	"time"
 
 	"github.com/Flowpack/prunner"
 	"github.com/Flowpack/prunner/definition"
+	"github.com/Flowpack/prunner/server"
 	"github.com/Flowpack/prunner/taskctl"
 	"github.com/Flowpack/prunner/verifhook"
 	"github.com/taskctl/taskctl/pkg/variables"
@@ -35,9 +38,18 @@ type LateScenario struct {
 	BystanderMs int  `json:"bystander_ms"` // how long the bystander's task keeps running (its output is open meanwhile)
 	SameJob     bool `json:"same_job,omitempty"` // the bystander is a second task of the same job (depends on the first) instead of another job
 	Bystanders  int  `json:"bystanders"`   // 1-3 jobs/tasks that open their output after the late job's task has ended
+	// Stop scenario (r7) instead of a late writer: a task writes Lines lines to each stream, keeps running, and its job
+	// is canceled StopMs after the lines have reached the log store. What it wrote before it was stopped is its log.
+	Stop     bool `json:"stop,omitempty"`
+	StopMs   int  `json:"stop_ms,omitempty"`
+	Lines    int  `json:"lines,omitempty"`
+	StopHTTP bool `json:"stop_http,omitempty"` // the cancel goes through POST /job/cancel
 }
 
 func genLate(g gen) *LateScenario {
+	if g.p(350) {
+		return &LateScenario{Stop: true, StopMs: g.oneOf(0, 0, 20, 100), Lines: 1 + g.n(3), StopHTTP: g.p(500)}
+	}
 	ls := &LateScenario{LateMs: g.oneOf(150, 300, 500), GapMs: g.oneOf(0, 0, 20, 60), Bystanders: 1 + g.n(3), SameJob: g.p(300)}
 	ls.BystanderMs = ls.LateMs + g.oneOf(200, 400)
 	return ls
@@ -81,6 +93,9 @@ func (r *lateRun) execute() {
 }
 
 func (r *lateRun) once(attempt int) []Violation {
+	if r.ls.Stop {
+		return r.onceStop(attempt)
+	}
 	var viol []Violation
 	violate := func(rule, format string, a ...interface{}) {
 		viol = append(viol, Violation{"C19", rule, fmt.Sprintf(format, a...), attempt})
@@ -205,6 +220,135 @@ func (r *lateRun) once(attempt int) []Violation {
 	} else {
 		r.stats.Faults["late_write_after_task_end"]++
 	}
+	return viol
+}
+
+// onceStop: a task that has written something and is then stopped. Its status says "canceled", and what it wrote
+// before is still what the log store holds and what GET /job/logs returns.
+func (r *lateRun) onceStop(attempt int) []Violation {
+	var viol []Violation
+	violate := func(rule, format string, a ...interface{}) {
+		viol = append(viol, Violation{"C19", rule, fmt.Sprintf(format, a...), attempt})
+	}
+	verifhook.Handler, verifhook.SkipHandler, verifhook.FaultHandler = nil, nil, nil
+	dir, err := os.MkdirTemp("", "verif-stop-")
+	if err != nil {
+		return nil
+	}
+	defer os.RemoveAll(dir)
+	ls := r.ls
+	var script []string
+	wantOut, wantErr := "", ""
+	for i := 0; i < ls.Lines; i++ {
+		script = append(script, fmt.Sprintf("echo OUT-%d-before-the-stop", i), fmt.Sprintf("echo ERR-%d-before-the-stop >&2", i))
+		wantOut += fmt.Sprintf("OUT-%d-before-the-stop\n", i)
+		wantErr += fmt.Sprintf("ERR-%d-before-the-stop\n", i)
+	}
+	script = append(script, "sleep 20")
+	defs := &definition.PipelinesDef{Pipelines: map[string]definition.PipelineDef{
+		"stop": {Concurrency: 1, Tasks: map[string]definition.TaskDef{
+			"t":     {Script: script},
+			"after": {Script: []string{"echo NEVER"}, DependsOn: []string{"t"}},
+		}},
+	}}
+	outStore, err := taskctl.NewOutputStore(dir + "/logs")
+	if err != nil {
+		return nil
+	}
+	ctx, cancel := context.WithCancel(context.Background())
+	defer cancel()
+	runner, err := prunner.NewPipelineRunner(ctx, defs, func(j *prunner.PipelineJob) taskctl.Runner {
+		tr, _ := taskctl.NewTaskRunner(outStore, taskctl.WithEnv(variables.FromMap(j.Env)), taskctl.WithKillTimeout(time.Second))
+		tr.Stdout, tr.Stderr = io.Discard, io.Discard
+		return tr
+	}, nil, outStore)
+	if err != nil {
+		return nil
+	}
+	srv := server.NewServer(runner, outStore, func(h http.Handler) http.Handler { return h }, jwtTokenAuth(), false)
+	read := func(id, task, stream string) string {
+		rd, err := outStore.Reader(id, task, stream)
+		if err != nil {
+			return ""
+		}
+		defer rd.Close()
+		b, _ := io.ReadAll(rd)
+		return string(b)
+	}
+	job, err := runner.ScheduleAsync("stop", prunner.ScheduleOpts{})
+	if err != nil {
+		return nil
+	}
+	id := job.ID.String()
+	t0 := time.Now()
+	for read(id, "t", "stdout") != wantOut || read(id, "t", "stderr") != wantErr {
+		if time.Since(t0) > 5*time.Second {
+			r.stats.Inconclusive = append(r.stats.Inconclusive, "stop scenario: the task's first lines did not reach the log store within 5 s")
+			_ = runner.CancelJob(job.ID)
+			return nil
+		}
+		time.Sleep(3 * time.Millisecond)
+	}
+	time.Sleep(time.Duration(ls.StopMs) * time.Millisecond)
+	if ls.StopHTTP {
+		req := httptest.NewRequest("POST", "/job/cancel?id="+id, nil)
+		req.Header.Set("Authorization", authHeader(nil))
+		rec := httptest.NewRecorder()
+		srv.ServeHTTP(rec, req)
+		if rec.Code != http.StatusOK {
+			r.stats.Inconclusive = append(r.stats.Inconclusive, fmt.Sprintf("stop scenario: POST /job/cancel answered %d", rec.Code))
+			_ = runner.CancelJob(job.ID)
+			return nil
+		}
+	} else if err := runner.CancelJob(job.ID); err != nil {
+		r.stats.Inconclusive = append(r.stats.Inconclusive, "stop scenario: CancelJob: "+err.Error())
+		return nil
+	}
+	t0 = time.Now()
+	for {
+		done, status := false, ""
+		_ = runner.ReadJob(job.ID, func(x *prunner.PipelineJob) {
+			done = x.Completed
+			if jt := x.Tasks.ByName("t"); jt != nil {
+				status = jt.Status
+			}
+		})
+		if done {
+			r.logf("stopped: task status %q", status)
+			if status == "canceled" {
+				r.stats.Probes["stopped_task_reported_canceled"]++
+			}
+			break
+		}
+		if time.Since(t0) > 8*time.Second {
+			r.stats.Inconclusive = append(r.stats.Inconclusive, "stop scenario: the canceled job did not finish within 8 s")
+			return nil
+		}
+		time.Sleep(3 * time.Millisecond)
+	}
+	gotOut, gotErr := read(id, "t", "stdout"), read(id, "t", "stderr")
+	r.logf("store: stdout %q stderr %q", gotOut, gotErr)
+	if gotOut != wantOut || gotErr != wantErr {
+		violate("r1", "stop scenario: the log store holds stdout %q stderr %q for the stopped task, its commands wrote %q and %q before the stop (scenario %+v)", gotOut, gotErr, wantOut, wantErr, *ls)
+	}
+	req := httptest.NewRequest("GET", "/job/logs?id="+id+"&task=t", nil)
+	req.Header.Set("Authorization", authHeader(nil))
+	rec := httptest.NewRecorder()
+	srv.ServeHTTP(rec, req)
+	var body struct {
+		Stdout string `json:"stdout"`
+		Stderr string `json:"stderr"`
+	}
+	if rec.Code != http.StatusOK || json.Unmarshal(rec.Body.Bytes(), &body) != nil {
+		violate("r2", "stop scenario: GET /job/logs for the stopped task answered %d", rec.Code)
+	} else if body.Stdout != wantOut || body.Stderr != wantErr {
+		violate("r2", "stop scenario: GET /job/logs returns stdout %q stderr %q for the stopped task, its commands wrote %q and %q before the stop (scenario %+v)", body.Stdout, body.Stderr, wantOut, wantErr, *ls)
+	}
+	if o := read(id, "after", "stdout"); o != "" {
+		violate("r1", "stop scenario: task \"after\" depends on the stopped task and never ran, the log store holds %q for it", o)
+	}
+	r.stats.Probes["stopped_task_log_checked"]++
+	r.stats.Faults["cancel_after_output"]++
 	return viol
 }
 
